@@ -10,11 +10,112 @@
    (16 9 rows cols probes)                    checked element access directly on a Matrix (all forms)
    (16 10 rows cols n)                        RecordMatrix::from_iter / from_iters over n constant records
    (16 11 shape n)                            RecordTensor::from_iter over n constant records
+   (16 12 term probes)                        EVERY view adaptor / composition as the receiver of the
+                                              checked getters: `term` is the view-term language of C02
+                                              (Run/RunC02.v: (0 id shape) leaf, (1|2 t params) range /
+                                              mask, (3 t sel) index, (4 t extra) expansion, (5..8 t names)
+                                              rename / reverse / access / transpose, (9 ts pos n k) stack,
+                                              (10 ts n k) chain, (11 t k) Box / &mut / dyn / record /
+                                              &S wrappers, (12 id r c n0 n1) matrix-backed), run by the
+                                              C02 model Model/Views.v (v_ctor, c_shape, c_get).
+                                              result: (0 (shape (probe ...))), probe = (0 ()) | (0 (v)),
+                                              or the failing constructor's (1 e) | (2)
+   (16 13 kind shape streams)                 from_iter / from_iters::<N> over N = 1..3 streams of records
+                                              given by their history tags (0 constant, 1 / 2 a variable
+                                              of WengertList 1 / 2), all streams of one length; kind 0
+                                              RecordTensor, 1 RecordMatrix (shape = ((0 rows) (1 cols))).
+                                              result per stream: (0 (shape tag)) | (1 (0)) Empty |
+                                              (1 (1 shape n)) Shape | (1 (2 first later)) InconsistentHistory
    The model is evaluated with dev-build (overflow-checking) arithmetic; Proofs/C16P.v shows it
    cannot panic and coincides with wrapping arithmetic, so one result serves both profiles. *)
 From Coq Require Import List ZArith NArith Bool.
-From EasyML Require Import Base.Sx Model.Shape Model.U64 Model.Fallible Model.FallibleApi.
+From EasyML Require Import Base.Sx Model.Shape Model.U64 Model.Fallible Model.FallibleApi Model.Views
+     Model.RecordCollect.
 Import ListNotations.
+
+(* ---- the core view-term language of C02 (decoder as in Run/RunC02.v, core forms only) ---- *)
+Definition dvrange (s : sx) : option irange :=
+  match s with
+  | SL [a; b] => match dN a, dN b with Some x, Some y => Some (mkR x y) | _, _ => None end
+  | _ => None
+  end.
+Definition dvnamed (s : sx) : option (name * irange) :=
+  match s with
+  | SL [n; a; b] =>
+      match dnat n, dN a, dN b with Some n, Some x, Some y => Some (n, mkR x y) | _, _, _ => None end
+  | _ => None
+  end.
+Definition dvparams (s : sx) : option rparams :=
+  match s with
+  | SL [SZ 0%Z; strict; l] =>
+      match dbool strict, dlist dvnamed l with Some b, Some l => Some (PNamed b l) | _, _ => None end
+  | SL [SZ 1%Z; strict; l] =>
+      match dbool strict, dlist (dopt dvrange) l with Some b, Some l => Some (PAll b l) | _, _ => None end
+  | _ => None
+  end.
+Fixpoint dvterm (fuel : nat) (s : sx) : option view :=
+  match fuel with
+  | O => None
+  | S f =>
+      match s with
+      | SL [SZ 0%Z; id; sh] =>
+          match dN id, dshape sh with Some id, Some sh => Some (VTensor id sh) | _, _ => None end
+      | SL [SZ 12%Z; id; r; c; n0; n1] =>
+          match dN id, dN r, dN c, dnat n0, dnat n1 with
+          | Some id, Some r, Some c, Some n0, Some n1 => Some (VMatrix id r c n0 n1)
+          | _, _, _, _, _ => None
+          end
+      | SL [SZ 1%Z; t; p] =>
+          match dvterm f t, dvparams p with Some v, Some p => Some (VRange v p) | _, _ => None end
+      | SL [SZ 2%Z; t; p] =>
+          match dvterm f t, dvparams p with Some v, Some p => Some (VMask v p) | _, _ => None end
+      | SL [SZ 3%Z; t; ps] =>
+          match dvterm f t, dlist (dpair dnat dN) ps with
+          | Some v, Some ps => Some (VIndex v ps) | _, _ => None end
+      | SL [SZ 4%Z; t; es] =>
+          match dvterm f t, dlist (dpair dnat dnat) es with
+          | Some v, Some es => Some (VExpand v es) | _, _ => None end
+      | SL [SZ 5%Z; t; ns] =>
+          match dvterm f t, dnames ns with Some v, Some ns => Some (VRename v ns) | _, _ => None end
+      | SL [SZ 6%Z; t; ns] =>
+          match dvterm f t, dnames ns with Some v, Some ns => Some (VReverse v ns) | _, _ => None end
+      | SL [SZ 7%Z; t; ns] =>
+          match dvterm f t, dnames ns with Some v, Some ns => Some (VAccess v ns) | _, _ => None end
+      | SL [SZ 8%Z; t; ns] =>
+          match dvterm f t, dnames ns with Some v, Some ns => Some (VTranspose v ns) | _, _ => None end
+      | SL [SZ 9%Z; SL ts; pos; n; SZ _] =>
+          match sequence (map (dvterm f) ts), dnat pos, dnat n with
+          | Some vs, Some pos, Some n => Some (VStack vs pos n) | _, _, _ => None end
+      | SL [SZ 10%Z; SL ts; n; SZ _] =>
+          match sequence (map (dvterm f) ts), dnat n with
+          | Some vs, Some n => Some (VChain vs n) | _, _ => None end
+      | SL [SZ 11%Z; t; SZ _] =>
+          match dvterm f t with Some v => Some (VWrap v) | None => None end
+      | _ => None
+      end
+  end.
+Fixpoint vterm_leaf_ids (v : view) : list N :=
+  match v with
+  | VTensor id _ => [id]
+  | VMatrix id _ _ _ _ => [id]
+  | VRange v _ | VMask v _ | VIndex v _ | VExpand v _ | VRename v _ | VReverse v _
+  | VAccess v _ | VTranspose v _ | VWrap v => vterm_leaf_ids v
+  | VStack vs _ _ | VChain vs _ => flat_map vterm_leaf_ids vs
+  end.
+Fixpoint nodup_N (l : list N) : bool :=
+  match l with [] => true | x :: r => negb (existsb (N.eqb x) r) && nodup_N r end.
+
+(* checked element access with ANY constructible view as the receiver *)
+Definition adaptor_case (v : view) (probes : list (list N)) : sx :=
+  match v_ctor v with
+  | Ok c =>
+      if forallb (fun p => Nat.eqb (length p) (length (c_shape c))) probes
+      then SL [SZ 0; SL [sshape (c_shape c);
+                         slist (fun p => SL [SZ 0; sopt (fun e => SZ (leaf_value e)) (c_get c p)]) probes]]
+      else bad_case
+  | Err e => SL [SZ 1; e]
+  | Panic => SL [SZ 2]
+  end.
 
 Definition m0 := Debug.
 
@@ -115,6 +216,28 @@ Definition run_c16 (args : list sx) : sx :=
           else if validate_dimensions sh n then SL [SZ 0; sshape sh]
           else SL [SZ 1; SL [SZ 1; sshape sh; sN n]]
       | _, _ => bad_case
+      end
+  | [SZ 12%Z; t; probes] =>
+      match dvterm 40 t, dlist didx probes with
+      | Some v, Some probes => if nodup_N (vterm_leaf_ids v) then adaptor_case v probes else bad_case
+      | _, _ => bad_case
+      end
+  | [SZ 13%Z; kind; sh; streams] =>
+      match dbool kind, dshape sh, dlist (dlist dN) streams with
+      | Some kind, Some sh, Some (s0 :: rest) =>
+          if forallb (fun t => Nat.eqb (length t) (length s0)) rest
+             && Nat.leb (length rest) 2
+             && forallb (forallb (fun t => t <=? 2)%N) (s0 :: rest)
+          then
+            let enc := slist (soutcome (fun r : shape * N => SL [sshape (fst r); sN (snd r)])) in
+            if kind then
+              match sh with
+              | [(O, rows); (S O, cols)] => enc (record_matrix_from_iters rows cols (s0 :: rest))
+              | _ => bad_case
+              end
+            else enc (record_tensor_from_iters sh (s0 :: rest))
+          else bad_case
+      | _, _, _ => bad_case
       end
   | [SZ 9%Z; rows; cols; probes] =>
       match dN rows, dN cols, dlist dpair_idx probes with
